@@ -7,7 +7,7 @@
    complete snapshot files all load: Index/ProtoProofsRec.v) and paccept_run table st0 evs = Some st. *)
 From Coq Require Import ZArith List Bool Sorted.
 From Bluge Require Import Base.Res Index.Model Index.Trace Index.Proto Index.ProtoProofsPol Index.ProtoProofsInv
-  Index.ProtoProofsRec Index.ProtoProofsThm.
+  Index.ProtoProofsRec Index.ProtoProofsThm Index.ProtoProofsEx Index.ProtoProofsRoot.
 Import ListNotations.
 Open Scope Z_scope.
 
@@ -87,9 +87,7 @@ Proof. exact retention_proof. Qed.
 Print Assumptions retention.
 
 (* 10a. a segment file whose removal succeeded was named neither by a complete snapshot file on disk
-   nor by the snapshot being written.  (That the writer's in-memory root does not use it either is
-   not derivable from the monitor, which does not relate the root to the policy: the engine's
-   oracle checks it on every run.) *)
+   nor by the snapshot being written (for the writer's root and the grabbed snapshot: 10d) *)
 Theorem no_needed_removal_seg : forall table n st0, start_ok table n st0 ->
   forall evs1 id evs2 st,
   paccept_run table st0 (evs1 ++ PRemoveOk false id :: evs2) = Some st ->
@@ -123,3 +121,84 @@ Theorem no_needed_removal_step : forall table st id st',
   (forall s, In s (d_seg (ps_disk st')) <-> In s (d_seg (ps_disk st)) /\ s <> id).
 Proof. exact no_needed_removal_step_proof. Qed.
 Print Assumptions no_needed_removal_step.
+
+(* 10d. the writer's live state.  persisted_ids sn = the file-backed segments of a snapshot; ps_grabbed =
+   the snapshot the persister works on: (epoch, file-backed segments of the root it grabbed), from the
+   grab until the commit of its snapshot file (grabbed_since).  In every state of every accepted run the
+   policy marks none of them removable ... *)
+Theorem live_state_protected : forall table n st0 evs st,
+  start_ok table n st0 -> paccept_run table st0 evs = Some st ->
+  (forall s, In s (persisted_ids (t_root (ps_t st))) -> pol_may_remove_seg (ps_pol st) s = false) /\
+  (forall e G s, ps_grabbed st = Some (e, G) -> In s G -> pol_may_remove_seg (ps_pol st) s = false).
+Proof. exact live_state_protected_proof. Qed.
+Print Assumptions live_state_protected.
+
+(* ... hence a segment file whose removal succeeded is neither a file-backed segment of the writer's root
+   nor one of the snapshot the persister has grabbed *)
+Theorem no_needed_removal_root : forall table n st0 evs1 id evs2 st,
+  start_ok table n st0 ->
+  paccept_run table st0 (evs1 ++ PRemoveOk false id :: evs2) = Some st ->
+  exists st1, paccept_run table st0 evs1 = Some st1 /\
+    ~ In id (persisted_ids (t_root (ps_t st1))) /\
+    (forall e G, ps_grabbed st1 = Some (e, G) -> ~ In id G).
+Proof. exact no_needed_removal_root_proof. Qed.
+Print Assumptions no_needed_removal_root.
+
+(* what ps_grabbed holds: after an accepted PGrab e, as long as no snapshot was committed and nothing was
+   grabbed again, it is (e, the file-backed segments of the root at the grab) *)
+Theorem grabbed_since : forall table st0 evs1 e nacks evs2 st,
+  paccept_run table st0 (evs1 ++ PGrab e nacks :: evs2) = Some st ->
+  (forall ev, In ev evs2 -> keeps_grab ev) ->
+  exists st1, paccept_run table st0 evs1 = Some st1 /\
+    ps_grabbed st = Some (e, persisted_ids (t_root (ps_t st1))) /\ e = sn_epoch (t_root (ps_t st1)).
+Proof. exact grabbed_since_proof. Qed.
+Print Assumptions grabbed_since.
+
+(* the invariant behind it holds in every state of every accepted run: every file-backed root segment the
+   policy knows is named by the liveSegments entry of a LIVE epoch; between a grab and the commit of its
+   snapshot, every known file-backed root segment was file-backed in the grabbed root; the snapshot in
+   flight is the grabbed one and keeps all of those *)
+Theorem run_root_invariant : forall table n st0 evs st,
+  start_ok table n st0 -> paccept_run table st0 evs = Some st -> root_inv st.
+Proof. exact run_root_inv. Qed.
+Print Assumptions run_root_invariant.
+
+(* removal_only_by_policy: every Remove that succeeded, and every Remove that failed, was of a file the
+   policy model marks removable: a deletable epoch; a known segment that no liveSegments entry names *)
+Theorem removal_only_by_policy : forall table st0 evs1 snp id evs2 st,
+  paccept_run table st0 (evs1 ++ PRemoveOk snp id :: evs2) = Some st ->
+  exists st1, paccept_run table st0 evs1 = Some st1 /\
+    if snp then pol_may_remove_snp (ps_pol st1) id = true /\ In id (p_deletable (ps_pol st1))
+    else pol_may_remove_seg (ps_pol st1) id = true /\ In id (p_known (ps_pol st1)) /\
+         forall e ids, In (e, ids) (p_livesegs (ps_pol st1)) -> ~ In id ids.
+Proof. exact removal_only_by_policy_proof. Qed.
+Print Assumptions removal_only_by_policy.
+
+Theorem removal_attempt_by_policy : forall table st0 evs1 snp id evs2 st,
+  paccept_run table st0 (evs1 ++ PRemoveErr snp id :: evs2) = Some st ->
+  exists st1, paccept_run table st0 evs1 = Some st1 /\
+    if snp then pol_may_remove_snp (ps_pol st1) id = true else pol_may_remove_seg (ps_pol st1) id = true.
+Proof. exact removal_attempt_by_policy_proof. Qed.
+Print Assumptions removal_attempt_by_policy.
+
+(* N = 1: batch 1 persisted and committed; batch 2 replaces its only document, segment 1 leaves the root;
+   batch 2 persisted and committed; epoch 1 and then segment 1 are removed.  The file-backed root segment
+   2 is not removable; segment 1 was not while the root used it; a snapshot dropping a file-backed
+   segment of the grabbed root is refused; an id the policy still knows cannot become file-backed again.
+   (reader_pins — a file with an open handle is not removed — is a property of the Directory, flock /
+   SimDir PinOpen: trusted, see docs/proofs-proto.md.) *)
+Example root_example :
+  paccept_run [] (st_fresh 1) rx_run = Some rx_st /\
+  persisted_ids (t_root (ps_t rx_st)) = [2] /\ d_seg (ps_disk rx_st) = [2] /\
+  map fst (d_snp (ps_disk rx_st)) = [3] /\ ps_grabbed rx_st = None /\
+  paccept_run [] (st_fresh 1) (rx_run ++ [PRemoveOk false 2]) = None /\
+  paccept_run [] (st_fresh 1) (firstn 10 rx_run ++ [PRemoveOk false 1]) = None /\
+  paccept_run [] (st_fresh 1) (firstn 7 rx_run ++ [PPersistStart true 1 (SnapshotCodec.encode {| SnapshotCodec.sn_segs := [] |}) []]) = None /\
+  paccept_run [] (st_fresh 1)
+    (firstn 21 rx_run ++ [PI (ECall 3); PI (EIntro 3 ex_b1 [] 1 {| sn_epoch := 5; sn_segs := [rx_s2p; ex_s1] |});
+                          PI (EPersistSwap [1] {| sn_epoch := 6; sn_segs := [rx_s2p; rx_s1p] |})]) = None /\
+  paccept_run [] (st_fresh 1)
+    (rx_run ++ [PI (ECall 3); PI (EIntro 3 ex_b1 [] 1 {| sn_epoch := 5; sn_segs := [rx_s2p; ex_s1] |});
+                PI (EPersistSwap [1] {| sn_epoch := 6; sn_segs := [rx_s2p; rx_s1p] |})]) <> None.
+Proof. exact root_example_proof. Qed.
+Print Assumptions root_example.
